@@ -55,6 +55,8 @@ def templates(pyver, tier, rng=None):
             add("cells-%d" % n, "def f():\n" + "".join("    v%d = %d\n" % (i, i % 7) for i in range(n)) +
                 "    def g():\n        return " + " + ".join("v%d" % i for i in range(0, n, 1)) + "\n    return g\n")
             add("args-%d" % n, "def f(" + ", ".join("a%d" % i for i in range(min(n, 255))) + "):\n    return a0\n")
+    # one case beyond 65535 table entries / jump distance even in the quick tier (three-unit operands)
+    add("huge-65600-names-loop", "while c:\n    x = [" + ", ".join("n%d" % i for i in range(65600)) + "]\ny = [n65599, n256, n65536]\n")
     add("names-attr-chain", "x = " + ".".join("a%d" % i for i in range(300)) + "\n")
 
     # ---- jumps over bodies: forward (if / for) and backward (while), width classes
